@@ -11,6 +11,7 @@ use crate::{
         Shape, WeakShape,
         slot::{Slot, SlotAttributes},
     },
+    property::PropertyKey,
 };
 
 #[cfg(test)]
@@ -91,6 +92,22 @@ impl InlineCache {
         } else {
             None
         };
+
+        // The slot was computed before any getter or setter found by the lookup ran. Only cache it
+        // if it still describes where the current shapes keep the property.
+        let key = PropertyKey::from(self.name.clone());
+        let expected = Some(Slot {
+            index: slot.index,
+            attributes: slot.attributes - SlotAttributes::INLINE_CACHE_BITS,
+        });
+        let still_valid = if let Some(prototype_shape) = &prototype_shape {
+            shape.lookup(&key).is_none() && prototype_shape.lookup(&key) == expected
+        } else {
+            shape.lookup(&key) == expected
+        };
+        if !still_valid {
+            return;
+        }
 
         let mut entries = self.entries.borrow_mut();
 
